@@ -17,7 +17,7 @@ ASSUMPTIONS = [
 
 def run(ctx):
     rng = random.Random(ctx.seed * 7919 + 16)
-    n_arch, n_lrule = (4, 4) if ctx.quick else (6, 6)
+    n_arch, n_lrule = (4, 4) if ctx.quick else (5, 4)
     mcs = [bc.model_check("arch", n_arch), bc.model_check("lrule", min(n_lrule, 5))]
     specs, meta = [], {}
     hs, _ = bc.emit_histories("arch", n_arch)
@@ -26,6 +26,12 @@ def run(ctx):
     hs, _ = bc.emit_histories("lrule", n_lrule)
     meta[f"histories_lrule_upto_{n_lrule}"] = len(hs)
     specs += bc.specs_from("lrule", hs, asserts=bc.WORLDS[:1])
+    if not ctx.quick:      # a seeded sample of the 177 303 LayerRule histories of length <= 5 (all of them need > 20 GB)
+        hs5, _ = bc.emit_histories("lrule", 5)
+        hs5 = rng.sample(hs5, 40000)
+        meta["sampled_histories_lrule_upto_5"] = len(hs5)
+        specs += bc.specs_from("lrule", hs5, asserts=bc.WORLDS[:1])
+        del hs5
     for which, depth, num in (("arch", 9, 3000 if ctx.quick else 20000), ("lrule", 8, 500 if ctx.quick else 8000)):
         hs, _ = bc.simulate_histories(which, depth, num, seed=ctx.seed + 2)
         meta[f"simulated_{which}_depth_{depth}"] = len(hs)
